@@ -3,7 +3,7 @@ import os, json, glob
 root = os.path.dirname(os.path.dirname(os.path.abspath(__file__)))
 print("| seed | property | needs, to manifest | quick check | missed at first -> strengthened by |")
 print("|---|---|---|---|---|")
-for p in sorted(glob.glob(os.path.join(root, "seeded", "*", "meta.json"))):
+for p in sorted([p for p in glob.glob(os.path.join(root, "seeded", "*", "meta.json")) if "_superseded" not in p]):
     m = json.load(open(p))
     own = m["checks"].get(m["property"], {})
     cl = ""
